@@ -860,6 +860,8 @@ def rule_g(chk: Check, eng: Engine) -> None:
 
 
 def run(chk: Check, eng: Engine) -> None:
+    chk.rule("R02-h", "scope and local variables received by a constraint / search method are passed on to every family method that takes them", floor=20)
+    cf.context_forwarding_rule(chk, eng, "R02-h")
     chk.rule("R02-g", "a comparison that does not hold never scores 1.0 (interval interpretation of the scoring helper in float arithmetic)", floor=3)
     rule_g(chk, eng)
     chk.rule("R02-f", "in real arithmetic the value compared with the acceptance threshold is a convex combination of the per-class mean fitness values, "
@@ -890,6 +892,9 @@ _ALG = "src/fandango/evolution/algorithm.py"
 _POP = "src/fandango/evolution/population.py"
 _API = "src/fandango/api.py"
 MUTANTS = [
+    M("forall-domain-without-scope", "src/fandango/constraints/forall.py", "        for container in self.search.quantify(tree, scope=scope):\n", "        for container in self.search.quantify(tree):\n", "R02-h"),
+    M("implication-consequent-without-locals", "src/fandango/constraints/implication.py", "            fitness = copy(self.consequent.fitness(tree, scope, local_variables))", "            fitness = copy(self.consequent.fitness(tree, scope))", "R02-h"),
+    M("base-quantify-drops-scope", "src/fandango/language/search.py", "        return self.find(tree, scope, population)\n", "        return self.find(tree)\n", "R02-h"),
     M("mean-over-successful-evaluations", _EV, "                self._checks_made += 1\n            except Exception as e:", "                self._checks_made += 1\n                evaluated = getattr(self, \"_n_eval\", 0) + 1\n            except Exception as e:", "R02-b",
       more=(("        fitness /= len(constraints)\n        return (", "        fitness /= len(failing_trees) + 1\n        return ("),)),
     M("total-forgets-repetition-bounds", _EV, "            len(self._hard_constraints)\n            + len(self._repetition_bounds_constraints)\n            + len(self._soft_constraints)\n", "            len(self._hard_constraints)\n            + len(self._soft_constraints)\n", "R02-f"),
